@@ -1,6 +1,7 @@
 /- Line-protocol dispatch: one JSON request per line in, one JSON answer per line out. -/
 import Mappy.Wire
 import Mappy.Model.CIDict
+import Mappy.Model.DictUtils
 open Lean Mappy Mappy.Wire
 
 namespace Mappy.Driver
@@ -50,10 +51,31 @@ def cidict (req : Json) : Except String Json := do
   pure (Json.mkObj [("outs", .arr (outs.map encodeCIOut).toArray), ("final", ofJ (.dict s.items)),
                     ("factory", .bool s.factory)])
 
+/-! ### dictutils -/
+def resJ : Res J → Json := ofRes ofJ
+def resL : Res (List J) → Json := ofRes (fun l => ofJ (.list l))
+
+def getList (j : Json) (k : String) : Except String (List J) := do
+  match ← getJ j k with
+  | .list xs => pure xs
+  | _ => throw s!"field {k} is not a list"
+
+def decodePath (j : Json) (k : String) : Except String (List DictUtils.PathEl) := do
+  (← getArr j k).mapM fun e =>
+    match e with
+    | .str s => pure (.key (s2l s))
+    | .num n => pure (.idx n.mantissa)
+    | _ => throw "bad path element"
+
 def handle (op : String) (req : Json) : Except String Json := do
   match op with
   | "echo" => pure (ofJ (← getJ req "v"))
   | "cidict" => cidict req
+  | "update" => pure (resJ (DictUtils.update (← getBool req "ci") (← getBool req "ow") (← getJ req "d1") (← getFields req "d2")))
+  | "find" => pure (resJ (DictUtils.find (← getBool req "ci") (← getStr req "key") (← getJ req "value") (← getList req "lst")))
+  | "findall" => pure (resL (DictUtils.findall (← getBool req "ci") (← getStr req "key") (← getJ req "value") (← getList req "lst")))
+  | "findunique" => pure (resL (DictUtils.findunique (← getBool req "ci") (← getStr req "key") (← getList req "lst")))
+  | "findkey" => pure (resJ (DictUtils.findkey (← getBool req "ci") (← getJ req "d") (← decodePath req "path")))
   | "lower" => pure (Json.str (l2s (lower (← getStr req "s"))))
   | _ => throw s!"unknown op {op}"
 
